@@ -200,7 +200,7 @@ def gen(rng, kind, tier):
             cand = dict(cand)
             cand["cls"] = "DiffuseDroplet" if cand["cls"] == "SphericalDroplet" else cand["cls"]
             cand["width"] = truth["width"] or float(np.mean(geom.spacing(spec)))
-        return {"grid": spec, "cand": cand, "image": image, "opts": opts}
+        return {"grid": spec, "cand": cand, "image": image, "opts": opts, "route": common.pick_route(rng, 0.7)}
     if kind == "fit":
         t = rng.random()
         if t < 0.6:
@@ -218,7 +218,7 @@ def gen(rng, kind, tier):
             image = {"type": "other", "truth": truth, "levels": [0.0, 1.0], "noise": 0.05,
                      "seed": int(rng.integers(1 << 30))}
         cand = _perturb(rng, spec, truth, 1.0)
-        return {"grid": spec, "cand": cand, "image": image, "opts": _opts(rng, levels)}
+        return {"grid": spec, "cand": cand, "image": image, "opts": _opts(rng, levels), "route": common.pick_route(rng, 0.7)}
     if kind == "hostile":
         t = rng.random()
         if t < 0.4:
@@ -232,7 +232,8 @@ def gen(rng, kind, tier):
         cand = _perturb(rng, spec, truth, 1.5)
         if rng.random() < 0.15:
             cand["radius"] = float(rng.choice([0.0, 0.2 * float(np.mean(geom.spacing(spec)))]))
-        return {"grid": spec, "cand": cand, "image": image, "opts": _opts(rng, (0.0, 1.0), hostile=True)}
+        return {"grid": spec, "cand": cand, "image": image, "opts": _opts(rng, (0.0, 1.0), hostile=True),
+                "route": common.pick_route(rng, 0.7)}
     raise ValueError(kind)
 
 
@@ -278,7 +279,8 @@ def run(case, rec):
     image = build_image(grid, spec, case)
     field = ScalarField(grid, image.copy())
     dig0 = hashlib.blake2b(field.data.tobytes(), digest_size=16).hexdigest()
-    cand = make_droplet(case["cand"])
+    cand = common.via(make_droplet(case["cand"]), case.get("route"))  # provenance must not matter
+    rec.count(f"route:{case.get('route')}")
     cand_copy = cand.copy()
     opts = {k: (dict(v) if isinstance(v, dict) else v) for k, v in case["opts"].items()}
 
